@@ -1,4 +1,6 @@
 import Zed.Drv.ZngGlue
+import Zed.Model.ZngTypeValue
+import Zed.Model.ZngVng
 /-!
   Driver glue for C11:
     (C11 read <maxSize> <validate01> <vals01> <hex> ((zhex size uhex|fail)…))
@@ -6,6 +8,8 @@ import Zed.Drv.ZngGlue
         → (need (zhex size)…)               when an LZ4 block of the stream is not in the table
     (C11 validate <ty> <body>)  → 1 | 0     model of zed.Value.Validate
     (C11 ziter <hex>)           → (ok items…) | (panic)
+    (C11 vnghdr <hex>)          → (ok meta data) | err                model of vng.Header.Deserialize
+    (C11 typevalue <hex>)       → (ok <ty>) | fail | panic:<site>   model of Context.LookupByValue on a fresh context
 -/
 namespace Zed.Drv.C11
 open Zed Zed.Zng Zed.Drv.Zng
@@ -29,6 +33,22 @@ def handle : List Sexp → String
     match tyOf t, bodyOf b with
     | some t, some b => if validate t b then "1" else "0"
     | _, _ => "bad-op"
+  | [.atom "vnghdr", .atom hex] =>
+    match bytesOfHexFast hex with
+    | some bs =>
+      match Vng.deserialize bs with
+      | some h => toString (Sexp.list [.atom "ok", .atom (toString h.metaSize), .atom (toString h.dataSize)])
+      | none => "err"
+    | none => "bad-op"
+  | [.atom "typevalue", .atom hex] =>
+    match bytesOfHexFast hex with
+    | some bs =>
+      match TV.lookupByValue bs with
+      | .ok t _ _ => toString (Sexp.list [.atom "ok", sexpOfTy t])
+      | .fail => "fail"
+      | .panic p => "panic:" ++ p
+      | .fuelOut => "fuel"
+    | none => "bad-op"
   | [.atom "ziter", .atom hex] =>
     match bytesOfHexFast hex with
     | some bs =>
